@@ -168,3 +168,15 @@ package level
 //@ func (biomesCfg).bits(s; b) (res)
 //@   ensures res == ite(b == 0, 0, ite(1 <= b && b <= 3, b, biome.BitsPerBiome))    [@value]
 //@   modifies nothing
+
+//@ func (*linearPalette).id(l; v) (idx, ok)
+//@   loop 0: modifies nothing
+//@   loop 0: invariant -1 <= rangeindex && rangeindex < len(l.values) || (rangeindex == -1 && len(l.values) == 0)
+//@   loop 0: invariant all(j, 0, rangeindex+1, l.values[j] != v)
+//@   ensures ok ==> 0 <= idx && idx < len(l.values) && l.values[idx] == v            [@value]
+//@   ensures all(k, 0, old(len(l.values)), l.values[k] == old(l.values[k]))         [@frame]
+//@   ensures len(l.values) >= old(len(l.values)) && len(l.values) <= old(len(l.values)) + 1 && cap(l.values) == old(cap(l.values)) && l.bits == old(l.bits)   [@frame]
+//@   ensures ok && idx < old(len(l.values)) ==> len(l.values) == old(len(l.values))  [@value]
+//@   ensures ok && idx >= old(len(l.values)) ==> all(j, 0, old(len(l.values)), old(l.values[j]) != v)   [@value]
+//@   ensures !ok ==> idx == l.bits + 1 && len(l.values) == old(len(l.values)) && len(l.values) == cap(l.values) && all(j, 0, len(l.values), l.values[j] != v)   [@value]
+//@   modifies l.values, l.values[0:cap(l.values)]                                    [@frame]
